@@ -841,11 +841,20 @@ fn assignable_call<'t>(ctx: Context<'t>, callee: Assignable) -> ParseResult<'t, 
                 ctx = _ctx; // assign to outer
                 args.push(expr);
 
-                ctx = match ctx.tokens_lookahead::<2>() {
-                    [T::Newline, T::Comma] => ctx.skip(2),
-                    [T::Comma, T::Newline] => ctx.skip(2),
-                    [T::Comma, ..] => ctx.skip(1),
-                    _ => ctx,
+                // The list goes on if a comma follows - blank lines and lines with only a
+                // comment around the comma are layout.
+                let mut probe = ctx;
+                while matches!(probe.token(), T::Newline) {
+                    probe = probe.skip(1);
+                }
+                ctx = if matches!(probe.token(), T::Comma) {
+                    let mut after = probe.skip(1);
+                    while matches!(after.token(), T::Newline) {
+                        after = after.skip(1);
+                    }
+                    after
+                } else {
+                    ctx
                 };
             }
         }
